@@ -29,7 +29,7 @@ ASSUMPTIONS = ["O1/O2 with DESIGN §3 (subscripts of source terms take the query
 MIN_NONTRIVIAL = {"quick": 25, "thorough": 600}
 REQUIRED = ["eval:identify_target_outcomes", "C05:families-evaluated", "C05:estimands-correct", "C05:estimands-beyond-id",
             "C05:no-domain-cases", "C05:selection-diagrams-compared", "eval:trso_line6", "eval:trso_line9", "eval:trso_line10",
-            "eval:activate_domain_and_interventions"]
+            "eval:activate_domain_and_interventions", "C05:line10:working-distribution-not-a-joint"]
 TIMEOUT = {"quick": 900, "thorough": 7200}
 
 
@@ -146,6 +146,7 @@ def run_shard(ctx):
     mon_dsep.install()
     rng = ctx.rng
     pool: list = []
+    pool2: list = []  # cases whose line 10 worked on a distribution that is not a joint (a second line 10 after line 2)
     for i in range(ctx.share({"quick": 2500, "thorough": 40000}[ctx.tier])):
         biased = i % 3 != 0
         if biased:
@@ -162,11 +163,25 @@ def run_shard(ctx):
         run_case(ctx, gd, q, doms)
         if "trso_line10" in mon_trso.FACTS.get("lines", ()):
             pool.append((gd, q, doms))
+        if mon_trso.FACTS.get("line10_not_joint"):
+            pool2.append((gd, q, doms))
+    # planted: the 7 -> 2 -> 7 and 7 -> 2 -> 6 families of C01 (line 10 a second time, on a working distribution that is
+    # no longer a joint), alone and with random source domains; they also seed the second feedback pool
+    from .c01 import planted_7_2_6, planted_7_2_7
+
+    for i in range(ctx.share({"quick": 240, "thorough": 3000}[ctx.tier])):
+        gd, q = (planted_7_2_7 if i % 3 else planted_7_2_6)(rng)
+        q = {"X": q["X"], "Y": q["Y"]}
+        doms = random_domains(rng, gd, q, True) if i % 2 else {}
+        run_case(ctx, gd, q, doms)
+        kernel.count("C05:planted-line10-twice-cases")
+        if mon_trso.FACTS.get("line10_not_joint") and len(gd["nodes"]) <= 6:
+            pool2.append((gd, q, doms))
     # feedback: line 10 (ID's line 7) is reached by ~4 % of random cases; cases that reached it are kept and mutated
     fb = {"line10_cases": 0}
     for i in range(ctx.share({"quick": 2500, "thorough": 40000}[ctx.tier])):
         if pool and rng.random() < 0.9:
-            gd, q, doms = rng.choice(pool)
+            gd, q, doms = rng.choice(pool2 if pool2 and rng.random() < 0.35 else pool)
             gd = gg.mutate(gd, rng)
             if rng.random() < 0.3:
                 q = gq.random_query(rng, gd) or q
@@ -189,6 +204,12 @@ def run_shard(ctx):
                 pool.append((gd, q, doms))
             else:
                 pool[rng.randrange(len(pool))] = (gd, q, doms)
+        if mon_trso.FACTS.get("line10_not_joint"):
+            fb["line10_not_joint_cases"] = fb.get("line10_not_joint_cases", 0) + 1
+            if len(pool2) < 300:
+                pool2.append((gd, q, doms))
+            else:
+                pool2[rng.randrange(len(pool2))] = (gd, q, doms)
     ctx.extras["feedback"] = fb
     # wide graphs: a small core (query and domains on it) embedded in 10..14 nodes whose padding is constant in the models
     nw = 0
